@@ -137,6 +137,11 @@ class S:
         for b, info in an.term.items():
             if info["kind"] == "switch" and info["discr"][0] == "discr" and info["discr"][1][0] != "try":
                 by.setdefault(info["discr"][1], []).append(b)
+            elif info["kind"] == "switch" and info.get("dty") == "bool" and info["discr"][0] in ("bin", "call", "not") and \
+                    not contains_value(info["discr"], lambda y: y[0] in ("load", "aload", "elem", "index", "deref", "clob", "init")):
+                # a boolean computed once (comparisons of call results made at one site, constants, parameters) and tested
+                # in more than one place: `let new = len < N; if new {..} .. if new {..}`
+                by.setdefault(("B", info["discr"]), []).append(b)
         sw, ed = {}, {}
         for D, blocks in by.items():
             if len(blocks) < 2:
@@ -148,6 +153,9 @@ class S:
                     if e.label[0] == "switch":
                         ed[e.node] = (D, e.label[1])
                         seen_vals.append(e.label[1])
+                    elif e.label[0] == "otherwise" and isinstance(D, tuple) and D and D[0] == "B" and \
+                            len(e.label[1]) == 1 and e.label[1][0] in (0, 1):
+                        ed[e.node] = (D, 1 - e.label[1][0])
         r = {"switch": sw, "edge": ed}
         an._corr_sw = r
         return r
